@@ -483,10 +483,26 @@ fn check_file(
         prs
     };
 
+    // ---- parallel with a schema the caller built itself (not the parser's validated copy)
+    let prs_own = {
+        let w = format!("{stage}:parallel-own-schema");
+        let own = crate_schema(t);
+        let prs = parse_records_parallel(bytes, parser.header(), Some(&own), Arc::clone(&sb))
+            .map_err(|e| lib_err(&w, "parse_records_parallel-failed", &e))?;
+        cmp_all(
+            &w,
+            prs.records(),
+            t,
+            &|sr| prs.get_string(sr).map(|s| s.to_string()).map_err(|e| e.to_string()),
+            mask,
+        )?;
+        prs
+    };
+
     // ---- key lookups: hashed, then binary-searched (and hashed again, because
-    // create_sorted_key_map rebuilds the hash map), on the eager and the parallel set
+    // create_sorted_key_map rebuilds the hash map), on the eager and the parallel sets
     if t.key.is_some() {
-        for (name, set) in [("eager", &rs), ("parallel", &prs)] {
+        for (name, set) in [("eager", &rs), ("parallel", &prs), ("parallel-own-schema", &prs_own)] {
             let w = format!("{stage}:{name}");
             check_keys(ctx, &w, set, t, false, mask)?;
             let mut sorted = set.clone();
